@@ -92,6 +92,21 @@ def witness_of(rej):
     return w
 
 
+
+def unreached(ctx, sd, out, modules, allow=()):
+    """non-vacuity from `tlc -coverage 1`: expressions of the given modules that were never evaluated in the Next relation
+    (count 0), minus lines whose source text contains one of `allow`."""
+    import re
+    bad = []
+    for m in re.finditer(r"line (\d+), col (\d+) to line \d+, col \d+ of module (\w+): 0\s*$", out, re.M):
+        ln, mod = int(m.group(1)), m.group(3)
+        if mod not in modules:
+            continue
+        src = open(os.path.join(sd, mod + ".tla")).read().splitlines()[ln - 1]
+        if not any(a in src for a in allow):
+            bad.append("%s:%d %s" % (mod, ln, src.strip()))
+    return bad
+
 def execute(ctx, binary, scripts, tag):
     d = ctx.sub("run-" + tag)
     sp = os.path.join(d, "scripts.json")
@@ -163,13 +178,20 @@ def run(ctx):
 
     # (1) exhaustive: I => P; broken variants refuted; witnesses reachable
     ctx.tlc_exhaustive(sd, "MC_C11", "MC_small.cfg" if not T else "MC_large.cfg", timeout=2400, label="I=>P (Accepted, Retained)",
-                       workers=8 if not T else None, heap="8g" if T else None)
+                       workers=8 if not T else None, heap="4g" if T else None)
     jobs = [("MC_bug_%s.cfg" % b, b) for b in BUGS] + [("MC_wit_fallback.cfg", "wit-fallback"), ("MC_wit_repin.cfg", "wit-repin")]
     def mc(job):
         return ctx.tlc(sd, "MC_C11", job[0], workers=2, timeout=900, label="expected violated: %s" % job[1])
     for job, r in zip(jobs, parallel(mc, jobs, n=6)):
         if r.violated is None:
             raise Broken("%s is not refuted / not reachable (vacuous check): %r" % (job[1], r))
+
+    if T:
+        r = ctx.tlc(sd, "MC_C11", "MC_cov.cfg", workers=4, timeout=900, extra=["-coverage", "1"], label="coverage (non-vacuity)", count=False)
+        bad = unreached(ctx, sd, r.out, ("PinI", "PinP"), allow=("newcur = cur",))     # failed updates do not occur in the model
+        if not r.ok or bad:
+            raise Broken("vacuous exploration: unreached parts of the model: %s %r" % (bad[:5], r))
+        ctx.notes.append("coverage: every expression of PinI/PinP reached by the exhaustive run (except the failed-update branch)")
 
     seen = set()
     # (2) spec -> code: walks of PinI replayed on the real accessor
